@@ -160,15 +160,16 @@ static const opent ops[] = {
 int main(int argc, char **argv) {
     uint64_t seed = argc > 1 ? strtoull(argv[1], NULL, 10) : 1;
     const char *filter = argc > 2 ? argv[2] : NULL;
-    size_t lens[64]; int nl = 0;
-    for (int i = 3; i < argc && nl < 64; i++) lens[nl++] = (size_t) atol(argv[i]);
+    size_t lens[600]; int nl = 0;
+    for (int i = 3; i < argc && nl < 600; i++) lens[nl++] = (size_t) atol(argv[i]);
     if (nl == 0) { size_t d[] = { 0, 1, 15, 16, 17, 31, 32, 33, 63, 64, 65, 127, 128, 129, 255, 256, 257, 1000 }; nl = (int) (sizeof d / sizeof d[0]); memcpy(lens, d, sizeof d); }
     vrng_seed(&rng, seed, 11);
     randombytes_set_implementation(&t_rb_impl);
     if (sodium_init() < 0) return 3;
     int aes = crypto_aead_aes256gcm_is_available();
-    { char lb[512]; int o = 0; for (int j = 0; j < nl; j++) o += snprintf(lb + o, sizeof lb - (size_t) o, j ? ",%zu" : "%zu", lens[j]);
-      VALGRIND_PRINTF("CT-BEGIN valgrind=%d aes=%d lens=%s\n", (int) RUNNING_ON_VALGRIND, aes, lb); }
+    VALGRIND_PRINTF("CT-BEGIN valgrind=%d aes=%d\n", (int) RUNNING_ON_VALGRIND, aes);
+    for (int j0 = 0; j0 < nl; j0 += 30) { char lb[400]; int o = 0; for (int j = j0; j < nl && j < j0 + 30; j++) o += snprintf(lb + o, sizeof lb - (size_t) o, j > j0 ? ",%zu" : "%zu", lens[j]);
+        VALGRIND_PRINTF("CT-LENS %s\n", lb); }
     for (size_t i = 0; i < sizeof ops / sizeof ops[0]; i++) {
         if (filter && strcmp(filter, "all") && !strstr(ops[i].name, filter)) continue;
         if (!aes && strstr(ops[i].name, "aes256gcm")) { VALGRIND_PRINTF("CT-SKIP %s unavailable\n", ops[i].name); continue; }
